@@ -31,16 +31,23 @@ func newCompletedDispatchSlot() *dispatchSlot {
 	return d
 }
 
+// connectionGrace bounds how long the first packets of a socket wait for its connection
+// handlers (which usually register the event handlers) to return. Unlike dispatchGrace it is
+// paid at most once per socket, and only when a connection handler blocks, so it can be generous.
+const connectionGrace = 1 * time.Second
+
 // wait blocks until the packet of this slot has reached its handler and the handler has
 // either returned or been running for dispatchGrace.
-func (d *dispatchSlot) wait() {
+func (d *dispatchSlot) wait() { d.waitFor(dispatchGrace) }
+
+func (d *dispatchSlot) waitFor(grace time.Duration) {
 	<-d.started
 	select {
 	case <-d.finished:
 		return
 	default:
 	}
-	t := time.NewTimer(dispatchGrace)
+	t := time.NewTimer(grace)
 	select {
 	case <-d.finished:
 		t.Stop()
